@@ -788,10 +788,10 @@ Qed.
 
 
 Lemma dense_rollback_ti : forall p gs g w d o cf G,
-  QS w d p gs -> JI w p g -> s_last_confirmed (ps_sync p) <= cf -> TI p gs G -> HRti p gs cf o G.
+  QS w d p gs -> JI w p g -> 1 <= w -> s_last_confirmed (ps_sync p) <= cf -> TI p gs G -> HRti p gs cf o G.
 Proof.
-  intros p gs g w d o cf G HQS HJI HLcf (HG & HGI & HPN).
-  destruct (dense_rollback predict p gs g w d o cf HQS HJI HLcf) as (p1 & o1 & HR).
+  intros p gs g w d o cf G HQS HJI Hw1p HLcf (HG & HGI & HPN).
+  destruct (dense_rollback predict p gs g w d o cf HQS HJI Hw1p HLcf) as (p1 & o1 & HR).
   pose proof HR as (Er & _).
   pose proof HQS as [Hw Hd Hmode Hn Hconn Hgos HQ Hlast Hfr Hkinds Hpe Hsok].
   destruct Hmode as (Hrun & Hsp & Hdf). destruct Hn as (Hn1 & Hn2 & Hn3 & Hn4). destruct Hfr as (HfL & Hfc & Hfw).
@@ -803,7 +803,7 @@ Qed.
 
 Lemma advance_rollback_timeline : forall p gs g w d o p' o' G,
   advance_rollback_frame predict p o = Ok (p', o') ->
-  QS w d p gs -> JI w p g -> Forall (fun c => cs_last c < I32MAX) (ps_status p) ->
+  QS w d p gs -> JI w p g -> 1 <= w -> Forall (fun c => cs_last c < I32MAX) (ps_status p) ->
   (forall h, In h (local_handles p) -> exists pi, assoc_get (ps_pending p) h = Some pi) ->
   TI p gs G ->
   exists gs' R, o_requests o' = o_requests o ++ R /\ QS w d p' gs' /\ TI p' gs' (replay_hist G R) /\
@@ -812,9 +812,9 @@ Lemma advance_rollback_timeline : forall p gs g w d o p' o' G,
     exists cf, confirmed_frame p = Ok cf /\ o_spec_sends o' = o_spec_sends o ++ spec_sent p gs cf /\
                ps_next_spec p' = next_spec_after p cf /\ ps_spectators p' = ps_spectators p.
 Proof.
-  intros p gs g w d o p' o' G E HQS HJI Hbnd Hpend HTI.
+  intros p gs g w d o p' o' G E HQS HJI Hw1p Hbnd Hpend HTI.
   apply (advance_rollback_timeline_gen false p gs w d o p' o' G E HQS Hbnd Hpend); [|exact HTI].
-  intros cf _ HLcf _. exact (dense_rollback_ti p gs g w d o cf G HQS HJI HLcf HTI).
+  intros cf _ HLcf _. exact (dense_rollback_ti p gs g w d o cf G HQS HJI Hw1p HLcf HTI).
 Qed.
 
 (* what one call hands to the spectators: the next n frames after those already sent, consecutive,
@@ -857,14 +857,17 @@ Proof.
   pose proof (X g Hg). pose proof (Hcf g Hg). lia.
 Qed.
 
+(* the cells invariant of dense saving in rollback mode (the window is at least one frame) *)
+Definition JI1 (w : Z) (p : p2p) (g : game) : Prop := 1 <= w /\ JI w p g.
+
 Lemma advance_timeline : forall p gs g w d p' o r G,
   advance predict p = Ok (p', o, r) ->
-  QS w d p gs -> JI w p g -> Forall (fun c => cs_last c < I32MAX) (ps_status p) -> TI p gs G ->
+  QS w d p gs -> JI1 w p g -> Forall (fun c => cs_last c < I32MAX) (ps_status p) -> TI p gs G ->
   exists gs', QS w d p' gs' /\ TI p' gs' (replay_hist G (o_requests o)) /\
     hist_step d (ps_pending p) (local_handles p) gs gs' /\ ps_kinds p' = ps_kinds p /\ spec_step p gs o p' /\
     Forall (truthful_lt (s_current (ps_sync p')) gs') (adv_frames G (o_requests o)).
 Proof.
-  intros p gs g w d p' o r G E HQS HJI Hbnd HTI.
+  intros p gs g w d p' o r G E HQS (Hw1p & HJI) Hbnd HTI.
   pose proof HQS as [Hw Hd Hmode Hn Hconn Hgos HQ Hlast Hfr Hkinds Hpe Hsok].
   destruct Hw as (Hw1 & Hw2 & Hw3). destruct Hmode as (Hrun & Hsp & Hdf).
   unfold advance in E. rewrite Hrun in E. cbn [negb] in E.
@@ -900,7 +903,7 @@ Proof.
   rewrite (update_disconnects_noop p1) in E; [|rewrite Hst1; exact Hconn|rewrite Hrm1; exact Hgos]. cbn [res_bind] in E.
   destruct (advance_rollback_frame predict p1 o1) as [[p3 o3]| |] eqn:E3; cbn [res_bind] in E; try discriminate.
   injection E as <- <- <-.
-  destruct (advance_rollback_timeline p1 gs g w d o1 p3 o3 G E3 HQS1 HJI1) as (gs' & R & Ho & HQS' & HTI' & Hh' & Hkk' & HTR' & cf & Ecf & Hsent & Hns' & Hss'); [| |exact HTI1|].
+  destruct (advance_rollback_timeline p1 gs g w d o1 p3 o3 G E3 HQS1 HJI1 Hw1p) as (gs' & R & Ho & HQS' & HTI' & Hh' & Hkk' & HTR' & cf & Ecf & Hsent & Hns' & Hss'); [| |exact HTI1|].
   { rewrite Hst1. exact Hbnd. }
   { intros h Hin. rewrite Hpe1. apply Hpend. rewrite <- Hlh1. exact Hin. }
   exists gs'. split; [exact HQS'|]. split; [rewrite Ho, replay_hist_app, Hrep1; exact HTI'|]. split; [rewrite <- Hpe1, <- Hlh1; exact Hh'|]. split; [congruence|].
@@ -1434,29 +1437,31 @@ End Generic.
 
 (* ---------- dense saving ---------- *)
 Lemma dense_CI_step : forall p gs g w d o,
-  QS w d p gs -> JI w p g -> op_ok p o = true ->
-  exists s g', sstep predict p o = Ok s /\ exec w g (o_requests (sr_out s)) = Some g' /\ JI w (sr_state s) g'.
+  QS w d p gs -> JI1 w p g -> op_ok p o = true ->
+  exists s g', sstep predict p o = Ok s /\ exec w g (o_requests (sr_out s)) = Some g' /\ JI1 w (sr_state s) g'.
 Proof.
-  intros p gs g w d o HQS HJI Hok.
-  destruct (step_in_space predict p gs g w d o HQS HJI Hok) as (s & gs' & g' & Es & _ & Ex & HJ').
-  exists s, g'. split; [exact Es|]. split; [exact Ex|exact HJ'].
+  intros p gs g w d o HQS (Hw1p & HJI) Hok.
+  destruct (step_in_space predict p gs g w d o HQS HJI Hw1p Hok) as (s & gs' & g' & Es & _ & Ex & HJ').
+  exists s, g'. split; [exact Es|]. split; [exact Ex|]. split; [exact Hw1p|exact HJ'].
 Qed.
-Lemma dense_CI_start : forall n w d kinds eps nspec, 1 <= w -> JI w (session_start n w false d kinds eps nspec) (game0 w).
-Proof. intros n w d kinds eps nspec Hw. apply JI_start. lia. Qed.
+Lemma dense_CI_start : forall n w d kinds eps nspec, 1 <= w -> JI1 w (session_start n w false d kinds eps nspec) (game0 w).
+Proof. intros n w d kinds eps nspec Hw. split; [exact Hw|]. apply JI_start. lia. Qed.
+Lemma JI1_frame : forall w p g, JI1 w p g -> gframe g = s_current (ps_sync p).
+Proof. intros w p g (_ & H). exact (ji_frame _ _ _ H). Qed.
 
-Definition step_timeline := step_timeline_g false JI dense_CI_step advance_timeline ji_frame dense_CI_start.
-Definition run_timeline := run_timeline_g false JI dense_CI_step advance_timeline ji_frame dense_CI_start.
+Definition step_timeline := step_timeline_g false JI1 dense_CI_step advance_timeline JI1_frame dense_CI_start.
+Definition run_timeline := run_timeline_g false JI1 dense_CI_step advance_timeline JI1_frame dense_CI_start.
 Definition confirmed_frames_use_held_inputs :=
-  confirmed_frames_use_held_inputs_g false JI dense_CI_step advance_timeline ji_frame dense_CI_start.
+  confirmed_frames_use_held_inputs_g false JI1 dense_CI_step advance_timeline JI1_frame dense_CI_start.
 Definition confirmed_frames_use_delivered_inputs :=
-  confirmed_frames_use_delivered_inputs_g false JI dense_CI_step advance_timeline ji_frame dense_CI_start.
-Definition held_inputs_step := held_inputs_step_g false JI dense_CI_step advance_timeline ji_frame dense_CI_start.
+  confirmed_frames_use_delivered_inputs_g false JI1 dense_CI_step advance_timeline JI1_frame dense_CI_start.
+Definition held_inputs_step := held_inputs_step_g false JI1 dense_CI_step advance_timeline JI1_frame dense_CI_start.
 Definition host_broadcast_is_confirmed_timeline :=
-  host_broadcast_is_confirmed_timeline_g false JI dense_CI_step advance_timeline ji_frame dense_CI_start.
-Definition TI_start := TI_start_g false JI dense_CI_step advance_timeline ji_frame dense_CI_start.
-Definition invariants_reachable := invariants_reachable_g false JI dense_CI_step advance_timeline ji_frame dense_CI_start.
-Definition requests_truthful_step := requests_truthful_step_g false JI dense_CI_step advance_timeline ji_frame dense_CI_start.
-Definition confirmed_frame_monotone := confirmed_frame_monotone_g false JI dense_CI_step advance_timeline ji_frame dense_CI_start.
+  host_broadcast_is_confirmed_timeline_g false JI1 dense_CI_step advance_timeline JI1_frame dense_CI_start.
+Definition TI_start := TI_start_g false JI1 dense_CI_step advance_timeline JI1_frame dense_CI_start.
+Definition invariants_reachable := invariants_reachable_g false JI1 dense_CI_step advance_timeline JI1_frame dense_CI_start.
+Definition requests_truthful_step := requests_truthful_step_g false JI1 dense_CI_step advance_timeline JI1_frame dense_CI_start.
+Definition confirmed_frame_monotone := confirmed_frame_monotone_g false JI1 dense_CI_step advance_timeline JI1_frame dense_CI_start.
 
 (* C09's premise: at every call boundary of a run inside the space, the state saved for a confirmed
    frame F that is still inside the saved-state window is the serial replay of the held inputs of the
@@ -1472,8 +1477,8 @@ Theorem confirmed_saved_states_are_replays : forall ops n w d kinds eps nspec p 
 Proof.
   intros ops n w d kinds eps nspec p outs Hw Hd Hcap Hn Hlen Hpl H.
   destruct (run_timeline ops _ _ (game0 w) w d (QS_start n w d kinds eps nspec Hw Hd Hcap Hn Hlen Hpl)
-              (JI_start n w d kinds eps nspec ltac:(lia)) (TI_start n w d kinds eps nspec))
-    as [E|(p' & outs' & gs & g & E1 & _ & Ex & HQS & HJ & (HG & HGI & _))]; [congruence|].
+              (dense_CI_start n w d kinds eps nspec Hw) (TI_start n w d kinds eps nspec))
+    as [E|(p' & outs' & gs & g & E1 & _ & Ex & HQS & (_ & HJ) & (HG & HGI & _))]; [congruence|].
   rewrite H in E1. injection E1 as <- <-.
   exists g, gs. split; [exact Ex|]. split; [exact HQS|].
   intros F HF HFL.
